@@ -119,6 +119,16 @@ def xmap(m, args, kwargs):
 
 
 @callee
+def xfilter(m, args, kwargs):
+    from . import views
+    if len(args) != 2 or kwargs:
+        raise Unsupported("filter call shape")
+    if args[0] is None:
+        raise Unsupported("filter(None, ...)")
+    return views.filter1(m, args[0], m.iter_of(args[1]))
+
+
+@callee
 def xzip(m, args, kwargs):
     from . import views
     return views.zipn(m, [m.iter_of(a) for a in args])
@@ -133,7 +143,7 @@ def it_islice(m, args, kwargs):
 
 
 IT = sym.Module("it", {"islice": it_islice, "tee": it_tee, "chain": it_chain, "repeat": it_repeat, "cycle": it_cycle})
-STD_GLOBS = {"Stream": Stream, "it": IT, "xmap": xmap, "xzip": xzip, "Iterable": "Iterable", "inf": float("inf")}
+STD_GLOBS = {"Stream": Stream, "it": IT, "xmap": xmap, "xzip": xzip, "xfilter": xfilter, "Iterable": "Iterable", "inf": float("inf")}
 
 
 def std_isinstance(m, v, cls):
